@@ -47,6 +47,14 @@ ASSUMES = [
 ]
 CONTROL = ["request", "retry", "timeout", "metadata"]
 FIXED_IMPORTS = ["gapic_v1"]     # imported under a fixed name and used inside the method bodies (routing header)
+
+
+def fixed_import_defect(params, o):
+    """exactly the known finding flatten.param_named_like_fixed_import: the rpc flattens a field named gapic_v1 and the call
+    raised the AttributeError on routing_header before anything was sent. Any other failure on such an rpc is not this defect."""
+    e = o.get("error") or {}
+    return (any(q in FIXED_IMPORTS for q in params) and not o.get("ok") and e.get("exception") == "AttributeError"
+            and "has no attribute 'routing_header'" in e.get("message", "") and not o.get("calls"))
 IMPORTS = "From GV Require Import Model.Flatten."
 
 
@@ -331,10 +339,9 @@ def witness_api(kind):
 # corpus/C05/<kind>.json holds each of these (written by write_corpus); the first four are the witnesses of defects that were
 # repaired in /repo (353b7c7, 14fc9e4, d43e852, 318bb4b; paged_pb2_request: 9678930): they stay so that a regression is reported
 WITNESSES = ["cross_two_repeated", "cross_dotted", "reserved_in_pb2", "reserved_segment", "presence", "pb2_reserved_leaf",
-             "sub_reserved_leaf", "module_named_param", "module_named_param_sub", "paged_reuse", "paged_pb2_request", "prefix_signatures", "module_named_param_lro", "control_name", "duplicate_param", "empty_container_dotted", "falsy_request", "keyword_param_pb2"]
+             "sub_reserved_leaf", "module_named_param", "module_named_param_sub", "paged_reuse", "paged_pb2_request", "prefix_signatures", "module_named_param_lro", "param_named_gapic_v1", "control_name", "duplicate_param", "empty_container_dotted", "falsy_request", "keyword_param_pb2"]
 # a witness whose class is not yet in findings/known_findings.json is reported in scratch/findings and joins the run once it is
-PENDING = {"pb2_nonprimitive_leaf": "flatten.nonprimitive_leaf_in_pb2_submessage",
-           "param_named_gapic_v1": "flatten.param_named_like_fixed_import"}
+PENDING = {"pb2_nonprimitive_leaf": "flatten.nonprimitive_leaf_in_pb2_submessage"}
 CORPUS = os.path.join(env.VERIF, "corpus", "C05")
 
 
@@ -748,6 +755,7 @@ class ApiRun:
             return
         calls, meta = [], {}
         self.seqmeta = {}
+        self.exps_for_sequences = exps
         r = env.rng("C05-vals", self.rindex)
         quick = ctx.quick() and not getattr(self, "deep", False)
         for k, (fp, s, m, rq, cross) in enumerate(table):
@@ -917,8 +925,10 @@ class ApiRun:
             if o is None or (not o["ok"] and o.get("stage") == "import"):
                 continue
             if not o["ok"]:
+                seq_params = [q for _, q, _ in (self.exps_for_sequences.get(k) or [])]
                 ctx.violation(f"{m.name} ({variant}): listing twice with the same {style} raised {o['error']['exception']}: "
-                              f"{o['error']['message'][:160]}", case)
+                              f"{o['error']['message'][:160]}", case,
+                              "flatten.param_named_like_fixed_import" if fixed_import_defect(seq_params, o) else None)
                 continue
             want = []
             for _ in range(2):
@@ -999,8 +1009,8 @@ class ApiRun:
             pb2_leaf = self.idx.proto_plus_pkg(self.idx.package_of(rq)) and any(
                 "." in keys[i] and not self.idx.proto_plus_pkg(self.owner_pkg(rq, keys[i]))
                 and (exp[i][2].type == F.TYPE_MESSAGE or exp[i][2].label == F.LABEL_REPEATED) for i in sub_)
-            if any(q in FIXED_IMPORTS for q in params) and not o["ok"]:
-                ctx.features["param named like a fixed import (oracle only)"] += 1      # reported finding; the model has no imports
+            if fixed_import_defect(params, o):
+                ctx.features["param named like a fixed import (oracle only)"] += 1      # known finding; the model has no imports
             elif pb2_leaf and mode == "kwargs":
                 # a repeated / message leaf of a plain protobuf sub-message: protobuf refuses the emitted assignment (reported finding;
                 # outside the Values contract, see ASSUMES); the oracle below reports it under its signature
@@ -1017,7 +1027,7 @@ class ApiRun:
                 ctx.oblige(f"T2 {self.tag}.{m.name} {variant} {mode}: outcome is one the model knows", False, outcome_detail(o), "T2")
             # ---- the property's own sentences
             known = "flatten.nonprimitive_leaf_in_pb2_submessage" if pb2_leaf else None
-            if any(q in FIXED_IMPORTS for q in params):
+            if fixed_import_defect(params, o):
                 known = "flatten.param_named_like_fixed_import"
             if mode == "request" and o.get("arg_before") is not None and o.get("arg_before") != o.get("arg_after"):
                 ctx.violation(f"{m.name} ({variant}): the call changed the caller's request object (it must not mutate its argument)",
